@@ -23,6 +23,7 @@ import (
 	"os"
 	"path/filepath"
 	"strings"
+	"sync"
 
 	dsecp "github.com/decred/dcrd/dcrec/secp256k1/v4"
 	decdsa "github.com/decred/dcrd/dcrec/secp256k1/v4/ecdsa"
@@ -42,10 +43,10 @@ type elem struct {
 	kids []*elem
 }
 
-func str(b []byte) *elem       { return &elem{data: append([]byte{}, b...)} }
-func lst(k ...*elem) *elem     { return &elem{list: true, kids: k} }
-func num(n *big.Int) *elem     { return str(new(big.Int).Abs(n).Bytes()) }
-func num64(n int64) *elem      { return num(big.NewInt(n)) }
+func str(b []byte) *elem   { return &elem{data: append([]byte{}, b...)} }
+func lst(k ...*elem) *elem { return &elem{list: true, kids: k} }
+func num(n *big.Int) *elem { return str(new(big.Int).Abs(n).Bytes()) }
+func num64(n int64) *elem  { return num(big.NewInt(n)) }
 func (e *elem) clone() *elem {
 	c := &elem{list: e.list, data: append([]byte{}, e.data...)}
 	for _, k := range e.kids {
@@ -76,6 +77,27 @@ func enc(e *elem) []byte {
 		p = append(p, enc(k)...)
 	}
 	return encHdr(p, 0xc0)
+}
+
+// encNonCanonical: the same element in a non-minimal form: a single byte < 0x80 behind a length prefix, anything
+// else with the long (length-of-length) header although the short one would do
+func encNonCanonical(e *elem) []byte {
+	base := byte(0x80)
+	p := e.data
+	if e.list {
+		base = 0xc0
+		p = nil
+		for _, k := range e.kids {
+			p = append(p, enc(k)...)
+		}
+	} else if len(p) == 1 && p[0] < 0x80 {
+		return []byte{0x81, p[0]}
+	}
+	if len(p) > 55 {
+		lb := append([]byte{0}, minBytes(len(p))...)
+		return append(append([]byte{base + 55 + byte(len(lb))}, lb...), p...)
+	}
+	return append([]byte{base + 56, byte(len(p))}, p...)
 }
 
 // dec reads the first element (trailing bytes ignored); nil,nil on empty input
@@ -242,7 +264,72 @@ type outcome struct {
 	tx      *ethsigner.Transaction
 	payload []byte
 	err     string
+	// the values as the implementation returned them (not copied): kept to see whether they change later
+	liveAddr    *ethtypes.Address0xHex
+	liveTx      *ethsigner.Transaction
+	livePayload []byte
 }
+
+func copyInt(h *ethtypes.HexInteger) *ethtypes.HexInteger {
+	if h == nil {
+		return nil
+	}
+	return (*ethtypes.HexInteger)(new(big.Int).Set((*big.Int)(h)))
+}
+
+func copyTx(t *ethsigner.Transaction) *ethsigner.Transaction {
+	if t == nil {
+		return nil
+	}
+	c := &ethsigner.Transaction{Nonce: copyInt(t.Nonce), GasPrice: copyInt(t.GasPrice), MaxPriorityFeePerGas: copyInt(t.MaxPriorityFeePerGas),
+		MaxFeePerGas: copyInt(t.MaxFeePerGas), GasLimit: copyInt(t.GasLimit), Value: copyInt(t.Value)}
+	if t.From != nil {
+		c.From = append(json.RawMessage{}, t.From...)
+	}
+	if t.To != nil {
+		a := *t.To
+		c.To = &a
+	}
+	if t.Data != nil {
+		c.Data = append(ethtypes.HexBytes0xPrefix{}, t.Data...)
+	}
+	return c
+}
+
+// fingerprint of a result, computed from the given values at the time of the call
+func fpOf(cls int, a *ethtypes.Address0xHex, t *ethsigner.Transaction, payload []byte) string {
+	var sb strings.Builder
+	fi := func(h *ethtypes.HexInteger) {
+		if h == nil {
+			sb.WriteString("nil,")
+		} else {
+			sb.WriteString((*big.Int)(h).Text(16) + ",")
+		}
+	}
+	fmt.Fprintf(&sb, "%d|", cls)
+	if a != nil {
+		sb.WriteString(hex.EncodeToString(a[:]))
+	}
+	sb.WriteString("|")
+	if t != nil {
+		fi(t.Nonce)
+		fi(t.GasPrice)
+		fi(t.MaxPriorityFeePerGas)
+		fi(t.MaxFeePerGas)
+		fi(t.GasLimit)
+		fi(t.Value)
+		if t.To != nil {
+			sb.WriteString(hex.EncodeToString(t.To[:]))
+		}
+		fmt.Fprintf(&sb, ",%v,", t.Data == nil)
+		sb.Write(t.Data)
+	}
+	sb.WriteString("|")
+	sb.Write(payload)
+	return sb.String()
+}
+
+func (o *outcome) liveFp() string { return fpOf(o.cls, o.liveAddr, o.liveTx, o.livePayload) }
 
 var ctx = context.Background()
 
@@ -267,16 +354,121 @@ func runImpl(entry int, in []byte, chain int64) (o outcome) {
 		if e != nil {
 			return outcome{cls: 1, err: e.Error()}
 		}
-		return outcome{cls: 0, tx: tx}
+		return outcome{cls: 0, tx: copyTx(tx), liveTx: tx}
 	}
 	if err != nil {
 		return outcome{cls: 1, err: err.Error()}
 	}
-	o = outcome{cls: 0, tx: t.Transaction, payload: t.Payload}
+	// the projections are compared on copies taken now; the values themselves are kept as well (retained results)
+	o = outcome{cls: 0, tx: copyTx(t.Transaction), payload: append([]byte{}, t.Payload...), liveAddr: a, liveTx: t.Transaction, livePayload: t.Payload}
 	if a != nil {
 		o.addr = append([]byte{}, a[:]...)
 	}
 	return o
+}
+
+// ---------- state kept across calls: retained results, repeated calls, caller-owned input buffer ----------
+
+type retainedRes struct {
+	kind  string
+	entry int
+	chain int64
+	input []byte
+	o     outcome
+	fp    string
+}
+
+const retainN = 32
+
+func (g *gen) fail(class string, m map[string]interface{}) {
+	g.failCount[class]++
+	if g.failCount[class] <= 6 {
+		g.st.ImplFailures = append(g.st.ImplFailures, m)
+	}
+}
+
+func shortHex(b []byte) string {
+	if len(b) > 4096 {
+		return hex.EncodeToString(b[:4096]) + fmt.Sprintf("...(%d bytes)", len(b))
+	}
+	return hex.EncodeToString(b)
+}
+
+// checkRetained: every result still held must read exactly as it did when it was returned
+func (g *gen) checkRetained() {
+	for i := 0; i < len(g.ring); i++ {
+		rr := g.ring[i]
+		if rr.o.liveFp() != rr.fp {
+			g.fail("retained", map[string]interface{}{"what": "a result returned by an earlier call changed after later calls (returned values share state between calls)",
+				"input": shortHex(rr.input), "chain": rr.chain, "entry": rr.entry, "kind": rr.kind})
+			g.ring = append(g.ring[:i], g.ring[i+1:]...)
+			i--
+		}
+	}
+}
+
+// retain: hold the result; when the ring is full the oldest entry is run again and must give the same result
+func (g *gen) retain(rr *retainedRes) {
+	g.ring = append(g.ring, rr)
+	if len(g.ring) <= retainN {
+		return
+	}
+	old := g.ring[0]
+	g.ring = g.ring[1:]
+	g.rerun(old)
+}
+
+func (g *gen) finishRetained() {
+	for len(g.ring) > 0 {
+		old := g.ring[0]
+		g.ring = g.ring[1:]
+		g.rerun(old)
+	}
+}
+
+func (g *gen) rerun(old *retainedRes) {
+	again := runImpl(old.entry, append([]byte{}, old.input...), old.chain)
+	if again.liveFp() != old.fp {
+		g.fail("repeat", map[string]interface{}{"what": "the same call repeated later gave a different result (class, address, fields or payload)",
+			"input": shortHex(old.input), "chain": old.chain, "entry": old.entry, "kind": old.kind})
+	}
+	g.checkRetained()
+}
+
+// concurrent section: the pooled inputs run from several goroutines at once must give their sequential results
+func (g *gen) concurrentSection(workers, rounds int) {
+	if len(g.pool) == 0 {
+		return
+	}
+	var mu sync.Mutex
+	var wg sync.WaitGroup
+	bad := map[int]bool{}
+	for w := 0; w < workers; w++ {
+		wg.Add(1)
+		go func(w int) {
+			defer wg.Done()
+			n := len(g.pool)
+			for k := 0; k < rounds*n; k++ {
+				i := (k*(2*w+1) + w*7) % n
+				p := g.pool[i]
+				o := runImpl(p.entry, append([]byte{}, p.input...), p.chain)
+				if o.liveFp() != p.fp {
+					mu.Lock()
+					bad[i] = true
+					mu.Unlock()
+				}
+			}
+		}(w)
+	}
+	wg.Wait()
+	g.st.Extra["concurrent_calls"] = workers * rounds * len(g.pool)
+	for i := range g.pool {
+		if bad[i] {
+			p := g.pool[i]
+			g.fail("concurrent", map[string]interface{}{"what": "a call made while other goroutines were recovering other transactions gave a result different from the same call made alone",
+				"input": shortHex(p.input), "chain": p.chain, "entry": p.entry, "kind": p.kind})
+		}
+	}
 }
 
 func coqOptN(h *ethtypes.HexInteger) string {
@@ -309,9 +501,12 @@ type desc struct {
 }
 
 type gen struct {
-	w    *cv.Writer
-	st   *cv.Stats
-	seen map[string]bool
+	w         *cv.Writer
+	st        *cv.Stats
+	seen      map[string]bool
+	ring      []*retainedRes
+	pool      []*retainedRes
+	failCount map[string]int
 }
 
 var entryNames = []string{"RecoverRawTransaction", "RecoverLegacyRawTransaction", "RecoverEIP1559Transaction", "DecodeEIP1559SignaturePayload"}
@@ -321,6 +516,48 @@ func elemInt(l []*elem, i int) *big.Int {
 		return new(big.Int)
 	}
 	return new(big.Int).SetBytes(l[i].data)
+}
+
+// exactlyAccessListDropped: the accepted type-0x02 input l (non-empty access list) shows the known finding and
+// nothing else
+func exactlyAccessListDropped(l []*elem, o outcome, entry int, chain int64) bool {
+	t := o.tx
+	if t == nil || len(l) < 9 {
+		return false
+	}
+	for i := 0; i < 8; i++ {
+		if l[i].list {
+			return false
+		}
+	}
+	eqI := func(h *ethtypes.HexInteger, e *elem) bool {
+		return h != nil && (*big.Int)(h).Sign() >= 0 && bytes.Equal((*big.Int)(h).Bytes(), e.data)
+	}
+	if !bytes.Equal(big.NewInt(chain).Bytes(), l[0].data) || chain < 0 || t.GasPrice != nil ||
+		!eqI(t.Nonce, l[1]) || !eqI(t.MaxPriorityFeePerGas, l[2]) || !eqI(t.MaxFeePerGas, l[3]) || !eqI(t.GasLimit, l[4]) || !eqI(t.Value, l[6]) ||
+		!bytes.Equal(t.Data, l[7].data) {
+		return false
+	}
+	switch len(l[5].data) {
+	case 0:
+		if t.To != nil {
+			return false
+		}
+	case 20:
+		if t.To == nil || !bytes.Equal(t.To[:], l[5].data) {
+			return false
+		}
+	default:
+		return false
+	}
+	if entry == 3 {
+		return true
+	}
+	if len(l) < 12 || !bytes.Equal(o.payload, append([]byte{2}, enc(lst(l[0:9]...))...)) {
+		return false
+	}
+	want := expectedVB(true, l, chain)
+	return libVerifies(keccak(o.payload), elemInt(l, 10), elemInt(l, 11), o.addr, want)
 }
 
 // oracleEntries: every (digest, vB, r, s) the recovery could ask the ECDSA library about, answered by
@@ -375,7 +612,36 @@ func oracleEntries(entry int, in []byte, chain int64) (string, []*elem, bool) {
 
 func (g *gen) add(kind string, entry int, in cv.DSL, chain int64) outcome {
 	b := in.Expand()
-	o := runImpl(entry, b, chain)
+	// the implementation gets its own buffer (with spare capacity, as a network read buffer has); after the
+	// call the buffer must be unchanged, and the caller then reuses it: nothing returned may depend on it
+	buf := make([]byte, len(b), len(b)+64)
+	copy(buf, b)
+	o := runImpl(entry, buf, chain)
+	if !bytes.Equal(buf, b) || !bytes.Equal(buf[:cap(buf)][len(b):], make([]byte, cap(buf)-len(b))) {
+		g.fail("input-modified", map[string]interface{}{"what": entryNames[entry] + " modified the caller's input buffer",
+			"input": shortHex(b), "chain": chain, "entry": entry})
+	}
+	fp0 := fpOf(o.cls, nil, o.tx, o.payload) // from the copies taken inside runImpl
+	if o.cls == 0 && entry != 3 && len(o.addr) == 20 {
+		var a ethtypes.Address0xHex
+		copy(a[:], o.addr)
+		fp0 = fpOf(o.cls, &a, o.tx, o.payload)
+	}
+	buf = buf[:cap(buf)]
+	for i := range buf {
+		buf[i] = 0xa5
+	}
+	if o.liveFp() != fp0 {
+		g.fail("input-aliased", map[string]interface{}{"what": "the returned address/fields/payload changed when the caller overwrote its input buffer after the call (result aliases the input)",
+			"input": shortHex(b), "chain": chain, "entry": entry})
+	} else {
+		rr := &retainedRes{kind: kind, entry: entry, chain: chain, input: b, o: o, fp: fp0}
+		g.checkRetained()
+		g.retain(rr)
+		if len(b) <= 4096 && (o.cls == 0 && len(g.pool) < 260 && g.w.Count()%3 == 0 || o.cls == 1 && g.w.Count()%40 == 0 && len(g.pool) < 320) {
+			g.pool = append(g.pool, rr)
+		}
+	}
 	orc, l, typed := oracleEntries(entry, b, chain)
 	key := ""
 	g.st.Hit(fmt.Sprintf("%s:class=%d", kind, o.cls))
@@ -395,9 +661,25 @@ func (g *gen) add(kind string, entry int, in cv.DSL, chain int64) outcome {
 			g.st.ImplFailures = append(g.st.ImplFailures, map[string]interface{}{"what": "type-0x02 transaction with a different embedded chain id was not refused",
 				"input": in.Describe(), "chain": chain, "entry": entry})
 		}
+		if o.tx != nil {
+			for _, h := range []*ethtypes.HexInteger{o.tx.Nonce, o.tx.GasPrice, o.tx.MaxPriorityFeePerGas, o.tx.MaxFeePerGas, o.tx.GasLimit, o.tx.Value} {
+				if h != nil && (*big.Int)(h).Sign() < 0 {
+					g.fail("negative-field", map[string]interface{}{"what": "a returned transaction field is negative (RLP integers are non-negative; the payload encodes the magnitude)",
+						"input": in.Describe(), "chain": chain, "entry": entry})
+					break
+				}
+			}
+		}
 		if typed && len(l) > 8 && l[8].list && len(l[8].kids) > 0 {
-			key = "C10/eip1559-access-list-dropped"
-			g.st.Hit("known:access-list-dropped")
+			// the known finding, and only it: everything else about the result is as the property demands
+			// (payload = 0x02 || RLP of the first nine elements as received, fields = their values, signature
+			// verifies); any other deviation on such an input is reported as usual
+			if exactlyAccessListDropped(l, o, entry, chain) {
+				key = "C10/eip1559-access-list-dropped"
+				g.st.Hit("known:access-list-dropped")
+			} else {
+				g.st.Hit("access-list-nonempty:other-deviation")
+			}
 		}
 		if entry != 3 {
 			ri := 7
@@ -511,6 +793,9 @@ func fieldSets(r *cv.Rand) []ethsigner.Transaction {
 			GasLimit: ethtypes.NewHexInteger64(21000), Value: ethtypes.NewHexInteger64(0), Data: bytes.Repeat([]byte{0x61}, 56)},
 		{Nonce: ethtypes.NewHexInteger64(0), GasPrice: ethtypes.NewHexInteger64(1), MaxPriorityFeePerGas: ethtypes.NewHexInteger64(1), MaxFeePerGas: ethtypes.NewHexInteger64(2),
 			GasLimit: ethtypes.NewHexInteger64(1), To: addr, Value: ethtypes.NewHexInteger64(0x80), Data: []byte{0x00}},
+		// every integer field wider than 64 bits / in 2^63..2^64-1 (nothing may be reduced to an int64 or uint64 on the way)
+		{Nonce: hx(big2(64, 1)), GasPrice: hx(big2(63, 5)), MaxPriorityFeePerGas: hx(big2(64, 0)), MaxFeePerGas: hx(big2(72, 3)),
+			GasLimit: hx(big2(65, 2)), To: addr0, Value: hx(big2(63, 0)), Data: bytes.Repeat([]byte{0x80}, 55)},
 	}
 }
 
@@ -614,6 +899,19 @@ func (g *gen) mutateElements(b *base, r *cv.Rand, direct bool) {
 		emit("elem->overlong", with(i, str(append(append([]byte{}, orig.data...), r.Bytes(33)...))))
 		emit("elem->leading-zero", with(i, str(append([]byte{0}, orig.data...))))
 		emit("elem->zero-byte", with(i, str([]byte{0})))
+		// a leading zero on a value wider than any field (33..41 bytes) and on a 32-byte value
+		emit("elem->leading-zero-long", with(i, str(append([]byte{0}, r.Bytes(32+r.Intn(9))...))))
+		if i%2 == 0 {
+			emit("elem->leading-zero-long", with(i, str(append([]byte{0}, r.Bytes(31)...))))
+		}
+		// same length, different content (the signature stays the one of the original): one bit of the last byte
+		if len(orig.data) > 0 && !orig.list {
+			fl := append([]byte{}, orig.data...)
+			fl[len(fl)-1] ^= 1 << uint(r.Intn(8))
+			if fl[0] != 0 || len(fl) == 1 {
+				emit("elem->bitflip", with(i, str(fl)))
+			}
+		}
 		// dropped
 		emit("elem-dropped", append(append([]*elem{}, b.elems[:i]...), b.elems[i+1:]...))
 		// inserted before i
@@ -621,7 +919,56 @@ func (g *gen) mutateElements(b *base, r *cv.Rand, direct bool) {
 		emit("elem-inserted", ins)
 	}
 	emit("elem-appended", append(append([]*elem{}, b.elems...), str([]byte{7})))
+	if direct {
+		// a wrong shape together with a different element count (guards that look at the count only)
+		for i := 0; i < n; i++ {
+			for k, e := range []*elem{lst(), str(append([]byte{0}, b.elems[i].data...)), str(r.Bytes(19))} {
+				if k == 2 && i != n-7 && i != 0 { // 19 bytes: the "to" position (and one integer position)
+					continue
+				}
+				emit("elem-appended+shape", append(with(i, e), str([]byte{7})))
+				if k == 0 {
+					emit("elem-appended+shape", append(with(i, e), lst(), str(nil), str([]byte{1})))
+				}
+			}
+		}
+		// the first k elements only, k = 0 .. n+1 (the exact element counts around every length guard),
+		// through every entry point
+		for k := 0; k <= n; k++ {
+			g.addAll("mut:first-k-elements", assemble(b.typed, append([]*elem{}, b.elems[:k]...)), b.chain, true)
+		}
+	}
 	emit("elem-appended-list", append(append([]*elem{}, b.elems...), lst(str([]byte{7})), str(nil)))
+	if direct {
+		// one element written in a non-minimal RLP form (the decoder is lenient; the payload is re-encoded)
+		for i := 0; i < n; i++ {
+			var p []byte
+			for j, k := range b.elems {
+				if j == i {
+					p = append(p, encNonCanonical(k)...)
+				} else {
+					p = append(p, enc(k)...)
+				}
+			}
+			out := encHdr(p, 0xc0)
+			if b.typed {
+				out = append([]byte{2}, out...)
+			}
+			g.addAll("mut:elem-noncanonical-encoding", out, b.chain, i%4 == 0)
+		}
+	}
+	// an extra last element in the long form with declared length 0: its header ends exactly where the list ends
+	for _, tail := range [][]byte{{0xb8, 0x00}, {0xf8, 0x00}, {0xb9, 0x00, 0x00}} {
+		var p []byte
+		for _, k := range b.elems {
+			p = append(p, enc(k)...)
+		}
+		out := encHdr(append(p, tail...), 0xc0)
+		if b.typed {
+			out = append([]byte{2}, out...)
+		}
+		g.addAll("mut:elem-appended-longform-empty", out, b.chain, direct)
+	}
 	// trailing bytes after the RLP element (ignored by the decoder)
 	g.addAll("mut:trailing-bytes", append(b.raw(), 0xc0, 0x01), b.chain, direct)
 	// non-canonical outer header: long form with a leading zero in the length
@@ -637,6 +984,39 @@ func (g *gen) mutateElements(b *base, r *cv.Rand, direct bool) {
 		}
 		g.addAll("mut:noncanonical-outer-header", out, b.chain, direct)
 	}
+}
+
+// unsignedPayload: the 9-element signature payload that DecodeEIP1559SignaturePayload is meant for, mutated per
+// element and cut to every element count (8 = one short of its minimum)
+func (g *gen) unsignedPayload(l9 []*elem, chain int64, r *cv.Rand) {
+	emit := func(kind string, l []*elem) {
+		in := cv.Compress(assemble(true, l))
+		g.add("unsigned:"+kind, 3, in, chain)
+		if r.Intn(3) == 0 {
+			g.add("unsigned:"+kind, 0, in, chain)
+			g.add("unsigned:"+kind, 2, in, chain)
+		}
+	}
+	for k := 0; k <= len(l9); k++ {
+		emit("first-k-elements", append([]*elem{}, l9[:k]...))
+	}
+	for i := range l9 {
+		with := func(e *elem) []*elem {
+			l := append([]*elem{}, l9...)
+			l[i] = e
+			return l
+		}
+		emit("elem->emptylist", with(lst()))
+		emit("elem->list-of-self", with(lst(l9[i].clone())))
+		emit("elem->leading-zero", with(str(append([]byte{0}, l9[i].data...))))
+		emit("elem->zero-byte", with(str([]byte{0})))
+		emit("elem->emptystring", with(str(nil)))
+		emit("elem->19-bytes", with(str(r.Bytes(19))))
+		emit("elem-dropped", append(append([]*elem{}, l9[:i]...), l9[i+1:]...))
+		emit("elem-dropped+shape", append(append([]*elem{}, l9[:i]...), with(lst())[i+1:]...))
+	}
+	emit("elem-appended", append(append([]*elem{}, l9...), str(nil)))
+	emit("elem-appended-list", append(append([]*elem{}, l9...), lst()))
 }
 
 func (g *gen) mutateTo(b *base, r *cv.Rand) {
@@ -670,6 +1050,7 @@ func (g *gen) resignedShapes(b *base, r *cv.Rand) {
 			{"emptylist", lst()},
 			{"list-of-self", lst(b.elems[i].clone())},
 			{"emptystring", str(nil)},
+			{"leading-zero-long", str(append([]byte{0}, r.Bytes(32+r.Intn(9))...))},
 		} {
 			l := append([]*elem{}, b.elems...)
 			l[i] = m.e
@@ -691,6 +1072,16 @@ func (g *gen) resignedShapes(b *base, r *cv.Rand) {
 			l[0] = num(c)
 			l2 := resign(true, l, b.key, b.chain, false)
 			g.addAll("mut:resigned:chainid="+c.String(), assemble(true, l2), b.chain, true)
+		}
+		// the embedded chain id is the unsigned 64-bit pattern of a negative supplied chain id (2^64 + c), and
+		// the values at the int64 edge
+		for _, c := range []int64{-1, -b.chain - 1, -(1 << 63), -(1 << 62)} {
+			for _, emb := range []*big.Int{new(big.Int).Add(big2(64, 0), big.NewInt(c)), new(big.Int).Neg(big.NewInt(c))} {
+				l := append([]*elem{}, b.elems...)
+				l[0] = num(emb)
+				l2 := resign(true, l, b.key, c, false)
+				g.addAll("mut:resigned:chainid-wraps-negative", assemble(true, l2), c, true)
+			}
 		}
 	}
 }
@@ -741,6 +1132,11 @@ func (g *gen) mutateV(b *base, direct bool) {
 	vals := []*big.Int{big.NewInt(0), big.NewInt(1), big.NewInt(2), big.NewInt(26), big.NewInt(27), big.NewInt(28), big.NewInt(29),
 		big2(8, 0), big2(8, 27), big2(63, -1), big2(63, 0), big2(64, 0), big2(64, 1), big2(64, 27), big2(64, 28),
 		new(big.Int).Add(trueV, big2(64, 0)), new(big.Int).Add(trueV, big2(8, 0)), new(big.Int).Add(trueV, big.NewInt(1)), new(big.Int).Sub(trueV, big.NewInt(1))}
+	// what the EIP-155 subtraction turns into a plain parity 0/1 (2c+8, 2c+9), their neighbours, and into 27/28 + 256
+	for _, d := range []int64{6, 7, 8, 9, 10, 11} {
+		vals = append(vals, new(big.Int).Add(c2, big.NewInt(d)))
+	}
+	vals = append(vals, new(big.Int).Add(c2, big.NewInt(8+2)), new(big.Int).Add(new(big.Int).Add(c2, big.NewInt(8)), big2(64, 0)))
 	for d := int64(33); d <= 38; d++ { // 35+2c-2 .. 35+2c+3
 		vals = append(vals, new(big.Int).Add(c2, big.NewInt(d)))
 		vals = append(vals, new(big.Int).Add(new(big.Int).Add(c2, big.NewInt(d)), big2(8, 0)))
@@ -787,6 +1183,19 @@ func (g *gen) truncations(b *base, every bool) {
 			continue
 		}
 		g.addAll("mut:truncate", raw[:k], b.chain, k%5 == 0)
+	}
+}
+
+// negativeChains: legacy transactions signed (with the library) in the EIP-155 form for a negative supplied chain id
+// whose V = 35+2c+parity is still a non-negative integer
+func (g *gen) negativeChains(b *base) {
+	if b.typed {
+		return
+	}
+	for _, c := range []int64{-1, -3, -4, -5, -17, -18} {
+		l2 := resign(false, b.elems, b.key, c, true)
+		g.addAll("negative-chain-eip155", assemble(false, l2), c, true)
+		g.addAll("negative-chain-eip155", assemble(false, l2), -c, false)
 	}
 }
 
@@ -876,10 +1285,14 @@ func (g *gen) randStructured(r *cv.Rand, keys []*secp256k1.KeyPair) {
 		full[nf+1] = wrong(full[nf+1])
 	case 2:
 		full[nf+2] = wrong(full[nf+2])
+	}
+	switch r.Intn(10) { // independently: a different element count
 	case 3:
 		full = full[:len(full)-1]
 	case 4:
 		full = append(full, rint())
+	case 5:
+		full = append(full, lst(), rint())
 	}
 	kind := "random-structured:canonical"
 	if dev > 0 {
@@ -955,7 +1368,7 @@ func main() {
 	logrus.SetOutput(io.Discard) // the recovery functions log every refusal
 	header := "From Coq Require Import String List NArith ZArith Uint63.\nFrom FFS Require Import Base.Bytes Base.Lit Tx.RunC10.\nImport ListNotations.\nOpen Scope string_scope. Open Scope N_scope."
 	st := cv.NewStats()
-	g := &gen{st: st, seen: map[string]bool{}}
+	g := &gen{st: st, seen: map[string]bool{}, failCount: map[string]int{}}
 
 	if *replay != "" {
 		raw, err := os.ReadFile(*replay)
@@ -986,6 +1399,30 @@ func main() {
 		g.w = cv.NewWriter(*out, "C10", header, "case", "mismatches", 1)
 		o := g.add("replay", d.Entry, cv.Lit(b), d.Chain)
 		g.w.Flush()
+		// failures that need more than one call: other calls in between, the same call again, a few goroutines
+		// (the extra cases go to a writer that is never flushed)
+		{
+			g.w = cv.NewWriter(*out, "C10aux", header, "case", "mismatches", 1)
+			k := mustKey("0000000000000000000000000000000000000000000000000000000000000001")
+			t := fieldSets(cv.NewRand(10))[0]
+			for i := 0; i < 3; i++ {
+				for mode := 0; mode < 3; mode++ {
+					g.add("replay-aux", 0, cv.Compress(signBase(t, mode, k, 1337).raw()), 1337)
+				}
+				g.add("replay", d.Entry, cv.Lit(b), d.Chain)
+			}
+			g.finishRetained()
+			g.pool = g.ring[:0]
+			for _, in := range [][]byte{b, signBase(t, 1, k, 1337).raw(), signBase(t, 2, k, 1337).raw()} {
+				e, c := 0, int64(1337)
+				if len(g.pool) == 0 {
+					e, c = d.Entry, d.Chain
+				}
+				oo := runImpl(e, append([]byte{}, in...), c)
+				g.pool = append(g.pool, &retainedRes{kind: "replay", entry: e, chain: c, input: in, o: oo, fp: oo.liveFp()})
+			}
+			g.concurrentSection(4, 300)
+		}
 		fmt.Printf("implementation: %s(%s, chain %d): class=%d addr=%s payload=%s err=%s\n", entryNames[d.Entry], hexIn, d.Chain, o.cls,
 			hex.EncodeToString(o.addr), hex.EncodeToString(o.payload), o.err)
 		st.Evaluations = 1
@@ -1012,6 +1449,9 @@ func main() {
 		{0, "c0"}, {1, "c0"}, {0, "02c0"}, {3, "02c0"}, {0, "c7"}, {0, "c6"}, {1, "c6808080808080"},
 		{0, "c9808080808080808080"}, {0, "c98080808080801b8080"}, {0, "c98080808080801c0101"}, {0, "c9808080808080250101"},
 		{0, "02cc010180808080808080800101"}, {3, "02c9018080808080808080"}, {3, "02c90180808080808080c0"}, {3, "02c98080808080808080c0"},
+		{0, "02f800"}, {2, "02f800"}, {3, "02f800"}, {0, "f801c0"}, {1, "f801c0"}, {0, "02f801c0"}, {1, "b800"}, {0, "02b800"}, {0, "f90000"}, {1, "f90000"},
+		{0, "02f90000"}, {0, "c2b800"}, {0, "02c2b800"}, {0, "c2f800"}, {0, "02c2f800"}, {0, "c3b80100"}, {0, "c3f801c0"}, {0, "ca808080808080808080b8"}, {0, "ca80808080808080801bb8"},
+		{0, "cb8080808080801b0101b800"}, {0, "cb8080808080801b0101f800"}, {0, "f80b8080808080801b0101b800"},
 		{0, "ff"}, {0, "f8"}, {0, "f800"}, {1, "ff"}, {2, "02ff"}, {2, "03"}, {0, "01"}, {0, "03"}, {0, "7f"},
 	} {
 		for _, ch := range []int64{1, 0} {
@@ -1069,7 +1509,52 @@ func main() {
 			g.addAll("valid:"+b.name, raw, ch, true)
 			if !b.typed {
 				// the unsigned EIP-1559 payload of the same fields, for DecodeEIP1559SignaturePayload
-				g.add("valid:eip1559-signature-payload", 3, cv.Compress(t.SignaturePayloadEIP1559(ch).Bytes()), ch)
+				up := t.SignaturePayloadEIP1559(ch).Bytes()
+				g.add("valid:eip1559-signature-payload", 3, cv.Compress(up), ch)
+				if mode == 0 && (fi < 3 || thorough) {
+					top, _, derr := dec(up[1:])
+					if derr != nil || top == nil || !top.list || len(top.kids) != 9 {
+						panic("unsigned payload does not parse")
+					}
+					g.unsignedPayload(top.kids, ch, r)
+				}
+			}
+		}
+	}
+	// the list header changes form when the payload of the list reaches 56 and 256 bytes: data lengths chosen
+	// so that the signature payload, or the signed transaction, has exactly 55/56/255/256 bytes of list payload
+	{
+		addr := ethtypes.MustNewAddress("0x497eedc4299dea2f2a364be10025d0ad0f702de3")
+		hitB := map[string]bool{}
+		for d := 0; d <= 262; d++ {
+			t := ethsigner.Transaction{Nonce: ethtypes.NewHexInteger64(1), GasPrice: ethtypes.NewHexInteger64(2), MaxFeePerGas: ethtypes.NewHexInteger64(3),
+				GasLimit: ethtypes.NewHexInteger64(4), To: addr, Value: ethtypes.NewHexInteger64(5), Data: bytes.Repeat([]byte{0x11}, d)}
+			inner := func(l []*elem) int {
+				n := 0
+				for _, k := range l {
+					n += len(enc(k))
+				}
+				return n
+			}
+			dat := str(t.Data)
+			leg := []*elem{num64(1), num64(2), num64(4), str(addr[:]), num64(5), dat}
+			typ := []*elem{num64(1), num64(1), str(nil), num64(3), num64(4), str(addr[:]), num64(5), dat, lst()}
+			sizes := map[int]int{ // mode -> list payload of the signature payload
+				0: inner(leg), 1: inner(append(append([]*elem{}, leg...), num64(1), num64(0), num64(0))), 2: inner(typ)}
+			for mode := 0; mode < 3; mode++ {
+				sp := sizes[mode]
+				signedMin := sp + 67 // + V (1) + R, S (33 each at most)
+				if mode == 1 {
+					signedMin = inner(leg) + 67
+				}
+				want := sp == 55 || sp == 56 || sp == 255 || sp == 256 || (signedMin >= 255 && signedMin <= 258)
+				tag := fmt.Sprintf("%d/%d/%d", mode, sp, signedMin)
+				if !want || hitB[tag] {
+					continue
+				}
+				hitB[tag] = true
+				b := signBase(t, mode, keys[d%len(keys)], 1)
+				g.addAll("valid:list-header-boundary:"+b.name, b.raw(), 1, true)
 			}
 		}
 	}
@@ -1102,6 +1587,7 @@ func main() {
 			g.resignedShapes(b, r)
 			g.mutateTo(b, r)
 			g.chains(b)
+			g.negativeChains(b)
 		} else if light < nLight {
 			light++
 			g.mutateElements(b, r, false)
@@ -1154,6 +1640,16 @@ func main() {
 		}
 		g.addAll("random", b, []int64{1, 0, 1337}[r.Intn(3)], i%4 == 0)
 	}
+	// --- state kept across calls: the results still held are read again and their calls repeated; then the
+	// pooled calls (accepted and refused inputs of every family) from 8 goroutines at once
+	g.finishRetained()
+	wk, rounds := 8, 6
+	if thorough {
+		rounds = 40
+	}
+	g.concurrentSection(wk, rounds)
+	st.Extra["retained_window"] = retainN
+	st.Extra["concurrent_pool"] = len(g.pool)
 	if err := g.w.Flush(); err != nil {
 		panic(err)
 	}
